@@ -1,15 +1,36 @@
-import SurfProofs.Lemmas.ProtoNumeric
+import SurfProofs.Lemmas.ProtoBasics
+import SurfProofs.Lemmas.ProtoPalette
 /-! C04, SGR families: the SGR command `CSI … m` and the DECRPSS report `DCS 1 $ r … m ST`. For each: the
 printed message is in the grammar of its family and the payload decoder returns the denoted event. -/
 namespace SurfProofs.ProtoSgr
 open SurfModel.Vt SurfModel.Sgr SurfModel.Grammar SurfModel.Payload SurfModel.Protocol SurfModel.Automata
-open SurfProofs.Lemmas.Vt SurfProofs.Lemmas.Sgr SurfProofs.ReMatch SurfProofs.ProtoBasics SurfProofs.ProtoNumeric
+open SurfProofs.Lemmas.Vt SurfProofs.Lemmas.Sgr SurfProofs.ReMatch SurfProofs.ProtoBasics SurfProofs.ProtoPalette
+
+private theorem sep59 : (59 : Nat) < 48 ∨ 57 < 59 := by omega
+private theorem sep58 : (58 : Nat) < 48 ∨ 57 < 58 := by omega
+
+private theorem joinWith_mem (sep : Nat) (cs : List (List Nat)) (b : Nat) (hb : b ∈ joinWith sep cs) :
+    b = sep ∨ ∃ c ∈ cs, b ∈ c := by
+  induction cs with
+  | nil => simp [joinWith] at hb
+  | cons c rest ih =>
+    cases rest with
+    | nil => simp only [joinWith] at hb; exact Or.inr ⟨c, by simp, hb⟩
+    | cons d rest' =>
+      simp only [joinWith, List.mem_append, List.mem_cons] at hb
+      rcases hb with hb | hb | hb
+      · exact Or.inr ⟨c, by simp, hb⟩
+      · exact Or.inl hb
+      · rcases ih hb with h | ⟨x, hx, hbx⟩
+        · exact Or.inl h
+        · exact Or.inr ⟨x, by simp [hx], hbx⟩
 
 /-! ## `;` groups of the printed items -/
 
 /-- the `;`-separated groups of one printed item -/
 def itemGroups : SgrItem → List (List Nat)
   | .rgb role r g b .semi => [showNat (roleCode role), [50], showNat r, showNat g, showNat b]
+  | .palette role i false => [showNat (roleCode role), [53], showNat i]
   | it => [it.print]
 
 theorem itemGroups_ne_nil (it : SgrItem) : itemGroups it ≠ [] := by
@@ -18,6 +39,7 @@ theorem itemGroups_ne_nil (it : SgrItem) : itemGroups it ≠ [] := by
 theorem print_eq_join (it : SgrItem) : it.print = joinWith 59 (itemGroups it) := by
   unfold itemGroups
   split
+  · simp [SgrItem.print, joinWith]
   · simp [SgrItem.print, joinWith]
   · simp [joinWith]
 
@@ -89,6 +111,20 @@ theorem print_bytes (it : SgrItem) : ∀ b ∈ it.print, 48 ≤ b ∧ b ≤ 59 :
     · simp only [SgrItem.print, List.mem_append, List.mem_cons, List.not_mem_nil, or_false, or_assoc] at hb
       repeat' (rcases hb with hb | hb)
       all_goals first | omega | exact hd _ hb
+  | palette role i colon =>
+    cases colon <;>
+    · simp only [SgrItem.print, List.mem_append, List.mem_cons, List.not_mem_nil, or_false, or_assoc] at hb
+      repeat' (rcases hb with hb | hb)
+      all_goals first | omega | exact hd _ hb
+  | named bg i => cases bg <;> (simp only [SgrItem.print] at hb; exact hd _ hb)
+  | doubleUnderline => simp [SgrItem.print] at hb; omega
+  | underlineColon s =>
+    simp only [SgrItem.print, List.mem_append, List.mem_cons, List.not_mem_nil, or_false] at hb
+    rcases hb with (hb | hb) | hb
+    · omega
+    · omega
+    · exact hd _ hb
+  | empty => simp [SgrItem.print] at hb
 
 /-- no group contains `;` -/
 theorem groups_no59 (it : SgrItem) : ∀ g ∈ itemGroups it, 59 ∉ g := by
@@ -122,6 +158,29 @@ theorem groups_no59 (it : SgrItem) : ∀ g ∈ itemGroups it, 59 ∉ g := by
       simp only [List.mem_append, List.mem_cons, List.not_mem_nil, or_false, or_assoc] at h59
       repeat' (rcases h59 with h59 | h59)
       all_goals first | omega | exact hd _ h59
+  | palette role i colon =>
+    cases colon
+    · simp only [itemGroups, List.mem_cons, List.not_mem_nil, or_false] at hg
+      rcases hg with rfl | rfl | rfl
+      · exact hd _ h59
+      · simp at h59
+      · exact hd _ h59
+    · simp only [itemGroups, SgrItem.print, List.mem_cons, List.not_mem_nil, or_false] at hg
+      subst hg
+      simp only [List.mem_append, List.mem_cons, List.not_mem_nil, or_false, or_assoc] at h59
+      repeat' (rcases h59 with h59 | h59)
+      all_goals first | omega | exact hd _ h59
+  | named bg i =>
+    cases bg <;>
+    · simp only [itemGroups, SgrItem.print, List.mem_cons, List.not_mem_nil, or_false] at hg
+      subst hg
+      exact hd _ h59
+  | doubleUnderline => simp [itemGroups, SgrItem.print] at hg; subst hg; simp at h59
+  | underlineColon s =>
+    simp [itemGroups, SgrItem.print] at hg; subst hg
+    simp at h59
+    exact hd _ h59
+  | empty => simp [itemGroups, SgrItem.print] at hg; subst hg; simp at h59
 
 theorem splitBy_sgrParams (items : List SgrItem) (hne : items ≠ []) :
     splitBy 59 (sgrParams items) = items.flatMap itemGroups := by
@@ -245,6 +304,96 @@ theorem rgb_colonSpace_closed (role r g b : Nat) (hrole : role ≤ 2) (hr : r < 
        simp [sgrColor, nextNum, toU8, SgrItem.apply,
          n38, n48, n58, n2, n0, er, eg, eb, hr', hg', hb'])
 
+theorem split_palette (c : List Nat) (hc : 58 ∉ c) (i : Nat) :
+    splitBy 58 (c ++ [58, 53, 58] ++ showNat i) = [c, [53], showNat i] := by
+  have e : c ++ [58, 53, 58] ++ showNat i = c ++ 58 :: ([53] ++ 58 :: showNat i) := by simp
+  rw [e, splitBy_append_sep 58 c _ hc, splitBy_append_sep 58 [53] _ (by simp), splitBy_showNat 58 sep58]
+
+theorem palette_closed (role i : Nat) (colon : Bool) (hrole : role ≤ 2) (hi : i < 256) :
+    DClosed (itemGroups (.palette role i colon)) (fun m => SgrItem.apply m (.palette role i colon)) := by
+  have n38 : numberDecode [51, 56] = some 38 := by decide
+  have n48 : numberDecode [52, 56] = some 48 := by decide
+  have n58 : numberDecode [53, 56] = some 58 := by decide
+  have n5 : numberDecode [53] = some 5 := by decide
+  have s38 : splitBy 58 [51, 56] = [[51, 56]] := by decide
+  have s48 : splitBy 58 [52, 56] = [[52, 56]] := by decide
+  have s58 : splitBy 58 [53, 56] = [[53, 56]] := by decide
+  have e38 : showNat 38 = [51, 56] := by simp [showNat]
+  have e48 : showNat 48 = [52, 56] := by simp [showNat]
+  have e58 : showNat 58 = [53, 56] := by simp [showNat]
+  have ei := numberDecode_showNat_small i (u8_lt _ hi)
+  have ep := palette_eq i hi
+  cases colon
+  · intro fm rest
+    rcases role with _ | _ | _ | role
+    all_goals first
+      | omega
+      | simp [itemGroups, SurfModel.Protocol.roleCode, SgrItem.apply, setRole, sgrFaceLoop_cons, sgrFaceStep,
+          sgrColor, n38, n48, n58, n5, s38, s48, s58, e38, e48, e58, ei, ep]
+  · apply DClosed.single
+    intro fm rest
+    rcases role with _ | _ | _ | role
+    all_goals first
+      | omega
+      | (simp only [SgrItem.print, SurfModel.Protocol.roleCode, e38, e48, e58, sgrFaceStep,
+           split_palette [51, 56] (by decide), split_palette [52, 56] (by decide),
+           split_palette [53, 56] (by decide)]
+         simp [sgrColor, SgrItem.apply, setRole, n38, n48, n58, n5, ei, ep])
+
+theorem named_closed (bg : Bool) (i : Nat) (hi : i < 16) :
+    DClosed (itemGroups (.named bg i)) (fun m => SgrItem.apply m (.named bg i)) := by
+  apply DClosed.single
+  intro fm rest
+  have hs : ∀ v, splitBy 58 (showNat v) = [showNat v] := splitBy_showNat 58 sep58
+  have hn : ∀ v, v ≤ 255 → numberDecode (showNat v) = some v := fun v hv =>
+    numberDecode_showNat_small v (u8_small v hv)
+  have hc : ∀ k, k < 16 → Option.map colorOf SurfModel.Generated.colors16[k]? = some (xtermPalette k) := named_eq
+  cases bg
+  · rcases i with _ | _ | _ | _ | _ | _ | _ | _ | _ | _ | _ | _ | _ | _ | _ | _ | i
+    all_goals first
+      | omega
+      | (simp only [SgrItem.print, SgrItem.apply, sgrFaceStep, hs]
+         simp [hn, hc])
+  · rcases i with _ | _ | _ | _ | _ | _ | _ | _ | _ | _ | _ | _ | _ | _ | _ | _ | i
+    all_goals first
+      | omega
+      | (simp only [SgrItem.print, SgrItem.apply, sgrFaceStep, hs]
+         simp [hn, hc])
+
+theorem doubleUnderline_step (fm : FMod) (rest : List (List Nat)) :
+    sgrFaceStep fm [50, 49] rest = ({ fm with underline := some 2 }, rest) := by
+  have n : numberDecode [50, 49] = some 21 := by decide
+  have s : splitBy 58 [50, 49] = [[50, 49]] := by decide
+  simp [sgrFaceStep, n, s]
+
+theorem empty_step (fm : FMod) (rest : List (List Nat)) :
+    sgrFaceStep fm [] rest = ({ reset := true }, rest) := by
+  have n : numberDecode [] = some 0 := by decide
+  have s : splitBy 58 [] = [[]] := by decide
+  simp [sgrFaceStep, n, s]
+
+theorem underlineColon_closed (s : Nat) (hs : s ≤ 5) :
+    DClosed (itemGroups (.underlineColon s)) (fun m => SgrItem.apply m (.underlineColon s)) := by
+  have n4 : numberDecode [52] = some 4 := by decide
+  have s0 : splitBy 58 [52, 58, 48] = [[52], [48]] := by decide
+  have s1 : splitBy 58 [52, 58, 49] = [[52], [49]] := by decide
+  have s2 : splitBy 58 [52, 58, 50] = [[52], [50]] := by decide
+  have s3 : splitBy 58 [52, 58, 51] = [[52], [51]] := by decide
+  have s4 : splitBy 58 [52, 58, 52] = [[52], [52]] := by decide
+  have s5 : splitBy 58 [52, 58, 53] = [[52], [53]] := by decide
+  have d0 : numberDecode [48] = some 0 := by decide
+  have d1 : numberDecode [49] = some 1 := by decide
+  have d2 : numberDecode [50] = some 2 := by decide
+  have d3 : numberDecode [51] = some 3 := by decide
+  have d5 : numberDecode [53] = some 5 := by decide
+  apply DClosed.single
+  intro fm rest
+  rcases s with _ | _ | _ | _ | _ | _ | s
+  all_goals first
+    | omega
+    | simp [SgrItem.print, SgrItem.apply, showNat, sgrFaceStep, nextNum, n4, s0, s1, s2, s3, s4, s5,
+        d0, d1, d2, d3, d5]
+
 /-- the groups of a valid item are consumed together and change the record as the item says -/
 theorem item_closed (it : SgrItem) (h : it.Valid) :
     DClosed (itemGroups it) (fun m => SgrItem.apply m it) := by
@@ -273,6 +422,14 @@ theorem item_closed (it : SgrItem) (h : it.Valid) :
     · exact rgb_semi_closed role r g b h0 h1 h2 h3
     · exact rgb_colon_closed role r g b h0 h1 h2 h3
     · exact rgb_colonSpace_closed role r g b h0 h1 h2 h3
+  | palette role i colon => exact palette_closed role i colon h.1 h.2
+  | named bg i => exact named_closed bg i h
+  | doubleUnderline =>
+    exact DClosed.single _ _ (fun fm rest => by
+      simpa [SgrItem.print, SgrItem.apply] using doubleUnderline_step fm rest)
+  | underlineColon s => exact underlineColon_closed s h
+  | empty =>
+    exact DClosed.single _ _ (fun fm rest => by simpa [SgrItem.print, SgrItem.apply] using empty_step fm rest)
 
 /-- the loop over the groups of valid items computes the fold of their meanings -/
 theorem items_closed (items : List SgrItem) (h : ∀ it ∈ items, it.Valid) :
